@@ -242,6 +242,171 @@ func handlerName(e ast.Expr) (string, bool) {
 	return "", false
 }
 
+// observedRoutes: registrations read off the REAL router by the probe (`routes observed METHOD PATTERN HANDLER ...`),
+// used only for registrations the static walk could not resolve (see routes()).
+var observedRoutes []route
+
+// structFieldNames: field names, in order, of the element type of a slice / array / map literal (anonymous struct, named
+// struct of the package, pointers to those); nil when the elements are not structs
+func (p *pkgInfo) structFieldNames(t ast.Expr) []string {
+	if st, ok := t.(*ast.StarExpr); ok {
+		t = st.X
+	}
+	switch t := t.(type) {
+	case *ast.StructType:
+		var out []string
+		for _, fl := range t.Fields.List {
+			for _, nm := range fl.Names {
+				out = append(out, nm.Name)
+			}
+		}
+		return out
+	case *ast.Ident:
+		for _, si := range p.structs {
+			if si.name == t.Name {
+				var out []string
+				for _, f := range si.fields {
+					out = append(out, f.name)
+				}
+				return out
+			}
+		}
+	}
+	return nil
+}
+
+// literalOf: the composite literal an identifier is bound to -- `x := T{...}` / `var x = T{...}` in the function, or a
+// package-level `var x = T{...}` -- provided it is bound exactly once in the function
+func (p *pkgInfo) literalOf(name string, fd *ast.FuncDecl) *ast.CompositeLit {
+	var found *ast.CompositeLit
+	n := 0
+	ast.Inspect(fd.Body, func(x ast.Node) bool {
+		switch x := x.(type) {
+		case *ast.AssignStmt:
+			for i, l := range x.Lhs {
+				if id, ok := l.(*ast.Ident); ok && id.Name == name {
+					n++
+					if i < len(x.Rhs) {
+						if cl, ok := x.Rhs[i].(*ast.CompositeLit); ok {
+							found = cl
+						}
+					}
+				}
+			}
+		case *ast.ValueSpec:
+			for i, id := range x.Names {
+				if id.Name == name {
+					n++
+					if i < len(x.Values) {
+						if cl, ok := x.Values[i].(*ast.CompositeLit); ok {
+							found = cl
+						}
+					}
+				}
+			}
+		}
+		return true
+	})
+	if n == 1 && found != nil {
+		return found
+	}
+	if n > 0 {
+		return nil
+	}
+	for _, f := range p.files {
+		for _, d := range f.Decls {
+			gd, ok := d.(*ast.GenDecl)
+			if !ok || gd.Tok != token.VAR {
+				continue
+			}
+			for _, sp := range gd.Specs {
+				vs, ok := sp.(*ast.ValueSpec)
+				if !ok {
+					continue
+				}
+				for i, id := range vs.Names {
+					if id.Name == name && i < len(vs.Values) {
+						if cl, ok := vs.Values[i].(*ast.CompositeLit); ok {
+							return cl
+						}
+					}
+				}
+			}
+		}
+	}
+	return nil
+}
+
+// rangeBindings: for `for k, v := range X` where X is (bound to) a slice / array / map literal, one substitution per
+// element: expression text ("v.field", "v", "k") -> the expression of that element.  ok=false when X cannot be resolved.
+func (p *pkgInfo) rangeBindings(rs *ast.RangeStmt, fd *ast.FuncDecl) (subs []map[string]ast.Expr, at []ast.Node, ok bool) {
+	var cl *ast.CompositeLit
+	switch x := rs.X.(type) {
+	case *ast.CompositeLit:
+		cl = x
+	case *ast.Ident:
+		cl = p.literalOf(x.Name, fd)
+	}
+	if cl == nil {
+		return nil, nil, false
+	}
+	var elt ast.Expr
+	isMap := false
+	switch t := cl.Type.(type) {
+	case *ast.ArrayType:
+		elt = t.Elt
+	case *ast.MapType:
+		elt, isMap = t.Value, true
+	default:
+		return nil, nil, false
+	}
+	fields := p.structFieldNames(elt)
+	name := func(e ast.Expr) string {
+		if id, ok := e.(*ast.Ident); ok && id.Name != "_" {
+			return id.Name
+		}
+		return ""
+	}
+	kname, vname := "", ""
+	if rs.Key != nil {
+		kname = name(rs.Key)
+	}
+	if rs.Value != nil {
+		vname = name(rs.Value)
+	}
+	for _, el := range cl.Elts {
+		sub := map[string]ast.Expr{}
+		val := el
+		if kv, isKV := el.(*ast.KeyValueExpr); isKV {
+			val = kv.Value
+			if isMap && kname != "" {
+				sub[kname] = kv.Key
+			}
+		} else if isMap {
+			return nil, nil, false
+		}
+		if u, isU := val.(*ast.UnaryExpr); isU && u.Op == token.AND {
+			val = u.X
+		}
+		if vname != "" {
+			if ecl, isCL := val.(*ast.CompositeLit); isCL && fields != nil {
+				for i, fe := range ecl.Elts {
+					if kv, isKV := fe.(*ast.KeyValueExpr); isKV {
+						sub[vname+"."+exprText(kv.Key)] = kv.Value
+					} else if i < len(fields) {
+						sub[vname+"."+fields[i]] = fe
+					}
+				}
+			} else {
+				sub[vname] = val
+			}
+		}
+		subs = append(subs, sub)
+		at = append(at, el)
+	}
+	return subs, at, true
+}
+
 func (p *pkgInfo) routes() (rts []route, opts [][2]string) {
 	for _, f := range p.files {
 		for _, d := range f.Decls {
@@ -250,6 +415,61 @@ func (p *pkgInfo) routes() (rts []route, opts [][2]string) {
 				continue
 			}
 			inConfigure := fd.Name.Name == "Configure"
+			// classify one call on the router; sub replaces loop variables by the expressions of one table element
+			classify := func(n *ast.CallExpr, sub map[string]ast.Expr, at ast.Node) {
+				s, ok := n.Fun.(*ast.SelectorExpr)
+				if !ok || !isRouterSel(s.X) {
+					return
+				}
+				arg := func(i int) ast.Expr {
+					if e, ok := sub[exprText(n.Args[i])]; ok {
+						return e
+					}
+					return n.Args[i]
+				}
+				r := route{reg: s.Sel.Name, pos: p.pos(at)}
+				if !inConfigure {
+					if s.Sel.Name == "ServeHTTP" || s.Sel.Name == "Lookup" {
+						return
+					}
+					r.unknown = "router method " + s.Sel.Name + " called outside Configure (in " + fd.Name.Name + ")"
+					rts = append(rts, r)
+					return
+				}
+				var hexpr ast.Expr
+				if m, ok := routerMethods[s.Sel.Name]; ok && len(n.Args) == 2 {
+					r.method = m
+					if pat, ok := methodConst(arg(0)); ok {
+						r.pattern = pat
+					} else {
+						r.unknown = "pattern is not a string literal"
+					}
+					hexpr = arg(1)
+				} else if (s.Sel.Name == "Handle" || s.Sel.Name == "Handler" || s.Sel.Name == "HandlerFunc") && len(n.Args) == 3 {
+					m, ok1 := methodConst(arg(0))
+					pat, ok2 := methodConst(arg(1))
+					r.method, r.pattern = m, pat
+					if !ok1 || !ok2 {
+						r.unknown = "method or pattern is not a constant"
+					}
+					hexpr = arg(2)
+				} else if s.Sel.Name == "ServeHTTP" || s.Sel.Name == "Lookup" {
+					return
+				} else {
+					r.unknown = "unclassified router call " + s.Sel.Name + " (" + exprText(n) + ")"
+					rts = append(rts, r)
+					return
+				}
+				if h, ok := handlerName(hexpr); ok {
+					r.handler = h
+					if len(p.funcs[h]) == 0 {
+						r.unknown = "handler " + h + " is not a function of the package"
+					}
+				} else if r.unknown == "" {
+					r.unknown = "handler expression not understood: " + exprText(hexpr)
+				}
+				rts = append(rts, r)
+			}
 			ast.Inspect(fd.Body, func(n ast.Node) bool {
 				switch n := n.(type) {
 				case *ast.AssignStmt:
@@ -258,56 +478,56 @@ func (p *pkgInfo) routes() (rts []route, opts [][2]string) {
 							opts = append(opts, [2]string{s.Sel.Name, exprText(n.Rhs[i])})
 						}
 					}
-				case *ast.CallExpr:
-					s, ok := n.Fun.(*ast.SelectorExpr)
-					if !ok || !isRouterSel(s.X) {
-						return true
-					}
-					r := route{reg: s.Sel.Name, pos: p.pos(n)}
+				case *ast.RangeStmt:
+					// table-driven registration: a loop over a literal table of {method, pattern, handler} whose body
+					// calls the router with the loop variable's fields -- one row per table element
 					if !inConfigure {
-						if s.Sel.Name == "ServeHTTP" || s.Sel.Name == "Lookup" {
+						return true
+					}
+					subs, at, ok := p.rangeBindings(n, fd)
+					if !ok {
+						return true
+					}
+					for i, sub := range subs {
+						ast.Inspect(n.Body, func(m ast.Node) bool {
+							if c, ok := m.(*ast.CallExpr); ok {
+								classify(c, sub, at[i])
+							}
 							return true
-						}
-						r.unknown = "router method " + s.Sel.Name + " called outside Configure (in " + fd.Name.Name + ")"
-						rts = append(rts, r)
-						return true
+						})
 					}
-					var hexpr ast.Expr
-					if m, ok := routerMethods[s.Sel.Name]; ok && len(n.Args) == 2 {
-						r.method = m
-						if pat, ok := methodConst(n.Args[0]); ok {
-							r.pattern = pat
-						} else {
-							r.unknown = "pattern is not a string literal"
-						}
-						hexpr = n.Args[1]
-					} else if (s.Sel.Name == "Handle" || s.Sel.Name == "Handler" || s.Sel.Name == "HandlerFunc") && len(n.Args) == 3 {
-						m, ok1 := methodConst(n.Args[0])
-						pat, ok2 := methodConst(n.Args[1])
-						r.method, r.pattern = m, pat
-						if !ok1 || !ok2 {
-							r.unknown = "method or pattern is not a constant"
-						}
-						hexpr = n.Args[2]
-					} else if s.Sel.Name == "ServeHTTP" || s.Sel.Name == "Lookup" {
-						return true
-					} else {
-						r.unknown = "unclassified router call " + s.Sel.Name + " (" + exprText(n) + ")"
-						rts = append(rts, r)
-						return true
-					}
-					if h, ok := handlerName(hexpr); ok {
-						r.handler = h
-						if len(p.funcs[h]) == 0 {
-							r.unknown = "handler " + h + " is not a function of the package"
-						}
-					} else if r.unknown == "" {
-						r.unknown = "handler expression not understood: " + exprText(hexpr)
-					}
-					rts = append(rts, r)
+					return false
+				case *ast.CallExpr:
+					classify(n, nil, n)
 				}
 				return true
 			})
+		}
+	}
+	// registrations the static walk could not resolve: take those from the list observed on the real router (if the
+	// check module supplied one); a registration that is still unknown stays an RtUnknown row
+	if len(observedRoutes) > 0 {
+		have := map[string]bool{}
+		unresolved := false
+		var keep []route
+		for _, r := range rts {
+			if r.unknown != "" && !strings.Contains(r.unknown, "called outside Configure") {
+				unresolved = true
+				continue
+			}
+			have[r.method+" "+r.pattern] = true
+			keep = append(keep, r)
+		}
+		if unresolved {
+			rts = keep
+			for _, o := range observedRoutes {
+				if !have[o.method+" "+o.pattern] {
+					if len(p.funcs[o.handler]) == 0 {
+						o.unknown = "observed handler " + o.handler + " is not a function of the package"
+					}
+					rts = append(rts, o)
+				}
+			}
 		}
 	}
 	return
@@ -405,6 +625,89 @@ type pelem struct {
 type sym struct {
 	elems  []pelem
 	mapRow int // >0: the value is the map returned by read row mapRow
+	// C18 evaluator extensions (all optional):
+	more   [][]pelem      // further alternative patterns (a key drawn from a literal table that is ranged over / indexed)
+	fields map[string]sym // a struct value, by field name (non-nil also for the empty struct literal)
+	items  []sym          // values of a literal slice / array / map
+	keys   []sym          // keys of a literal map
+	isColl bool           // items/keys are meaningful
+	funcs  []funcRef      // a function value: the declarations it can denote
+}
+
+// funcRef: a function or method of the module held in a variable, a table or passed as a method expression.
+type funcRef struct {
+	fd         *ast.FuncDecl
+	p          *pkgInfo
+	methodExpr bool // (*T).m / T.m: the first argument is the receiver
+	recv       *sym // x.m: the bound receiver
+}
+
+const maxAlts = 32
+
+// alts: every pattern the value can be.
+func (s sym) alts() [][]pelem {
+	return append([][]pelem{s.elems}, s.more...)
+}
+
+func (s sym) plain() bool {
+	return s.mapRow == 0 && s.fields == nil && !s.isColl && len(s.funcs) == 0
+}
+
+// mergeSyms: the value is one of vs (an element of a table).  Patterns become alternatives, function values are united;
+// anything else is unknown.
+func mergeSyms(vs []sym, why string) sym {
+	if len(vs) == 0 {
+		return unknownSym(why + " (empty table)")
+	}
+	allFuncs, allPlain := true, true
+	for _, v := range vs {
+		if len(v.funcs) == 0 {
+			allFuncs = false
+		}
+		if !v.plain() {
+			allPlain = false
+		}
+	}
+	if allFuncs {
+		var out sym
+		for _, v := range vs {
+			out.funcs = append(out.funcs, v.funcs...)
+		}
+		out.elems = []pelem{{kind: "unknown", s: "function value used as a string"}}
+		return out
+	}
+	if !allPlain {
+		return unknownSym(why + " (elements are neither all strings nor all functions)")
+	}
+	var all [][]pelem
+	seen := map[string]bool{}
+	for _, v := range vs {
+		for _, a := range v.alts() {
+			k := fmt.Sprint(a)
+			if !seen[k] {
+				seen[k] = true
+				all = append(all, a)
+			}
+		}
+	}
+	if len(all) > maxAlts {
+		return unknownSym(why + " (too many alternatives)")
+	}
+	return sym{elems: all[0], more: all[1:]}
+}
+
+// concatSyms: a + b on patterns, alternatives multiplied out.
+func concatSyms(a, b sym) sym {
+	var all [][]pelem
+	for _, x := range a.alts() {
+		for _, y := range b.alts() {
+			all = append(all, append(append([]pelem{}, x...), y...))
+		}
+	}
+	if len(all) > maxAlts {
+		return unknownSym("too many alternative keys")
+	}
+	return sym{elems: all[0], more: all[1:]}
 }
 
 func unknownSym(why string) sym { return sym{elems: []pelem{{kind: "unknown", s: why}}} }
@@ -419,6 +722,7 @@ type rrow struct {
 	pos       string
 	mapCall   bool
 	valueUsed bool
+	multi     bool // one of several rows made by one call whose key has alternatives
 }
 
 type hinfo struct {
@@ -441,6 +745,8 @@ type walker struct {
 	visited map[*ast.FuncDecl]bool
 	foreign map[string]*foreignPkg // import path -> package (nil entry: could not be loaded)
 	pkgKey  map[*pkgInfo]string
+	metas   map[*pkgInfo]*pkgMeta
+	recvArg *sym // receiver value for the next walkFunc of a method
 }
 
 // foreignPkg is another package of the repository's module, parsed so that calls into it can be followed.
@@ -492,6 +798,7 @@ type frame struct {
 	memo    map[*ast.CallExpr]int
 	mapVars map[string][]int // variable name -> read rows whose map it held
 	parents []ast.Node
+	poison  map[string]bool // variables modified inside a loop: unknown from the start (the walk is flow-insensitive)
 }
 
 type binding struct {
@@ -503,17 +810,38 @@ func newFrame() *frame {
 	return &frame{env: map[string][]binding{}, memo: map[*ast.CallExpr]int{}, mapVars: map[string][]int{}}
 }
 
-func symEq(a, b sym) bool {
-	if a.mapRow != b.mapRow || len(a.elems) != len(b.elems) {
-		return false
-	}
-	for i := range a.elems {
-		if a.elems[i] != b.elems[i] {
-			return false
+func symKey(s sym) string {
+	var sb strings.Builder
+	fmt.Fprintf(&sb, "%v|%d|%v|", s.elems, s.mapRow, s.more)
+	if s.fields != nil {
+		ks := make([]string, 0, len(s.fields))
+		for k := range s.fields {
+			ks = append(ks, k)
 		}
+		sort.Strings(ks)
+		sb.WriteString("{")
+		for _, k := range ks {
+			sb.WriteString(k + "=" + symKey(s.fields[k]) + ";")
+		}
+		sb.WriteString("}")
 	}
-	return true
+	if s.isColl {
+		sb.WriteString("[")
+		for _, v := range s.keys {
+			sb.WriteString("k:" + symKey(v) + ";")
+		}
+		for _, v := range s.items {
+			sb.WriteString("v:" + symKey(v) + ";")
+		}
+		sb.WriteString("]")
+	}
+	for _, f := range s.funcs {
+		fmt.Fprintf(&sb, "f:%p:%v;", f.fd, f.methodExpr)
+	}
+	return sb.String()
 }
+
+func symEq(a, b sym) bool { return symKey(a) == symKey(b) }
 
 func (fr *frame) get(name string) (sym, bool) {
 	st := fr.env[name]
@@ -525,6 +853,9 @@ func (fr *frame) get(name string) (sym, bool) {
 
 // define: `name := v` / `var name = v` / a parameter.  A second definition at the same depth is a re-assignment.
 func (fr *frame) define(name string, v sym) {
+	if fr.poison[name] {
+		v = unknownSym("variable " + name + " is modified inside a loop")
+	}
 	st := fr.env[name]
 	if len(st) > 0 && st[len(st)-1].depth == fr.depth {
 		fr.assign(name, v)
@@ -535,6 +866,9 @@ func (fr *frame) define(name string, v sym) {
 
 // assign: `name = v`.  The analysis is flow-insensitive, so a variable that can hold two different values is unknown.
 func (fr *frame) assign(name string, v sym) {
+	if fr.poison[name] {
+		v = unknownSym("variable " + name + " is modified inside a loop")
+	}
 	st := fr.env[name]
 	if len(st) == 0 {
 		fr.env[name] = []binding{{v, fr.depth}}
@@ -570,9 +904,12 @@ func scopeNode(n ast.Node) bool {
 var convNames = map[string]bool{"int": true, "int8": true, "int16": true, "int32": true, "int64": true, "uint": true, "uint8": true,
 	"uint16": true, "uint32": true, "uint64": true, "string": true, "float32": true, "float64": true, "bool": true}
 
+// localTypeNames: the type names declared in the walked packages (T(x) is a conversion, the value is x).
+var localTypeNames = map[string]bool{}
+
 func isConversion(c *ast.CallExpr) bool {
 	id, ok := c.Fun.(*ast.Ident)
-	return ok && convNames[id.Name] && len(c.Args) == 1
+	return ok && (convNames[id.Name] || localTypeNames[id.Name]) && len(c.Args) == 1
 }
 
 // feedsOf describes where the value of the node on top of the parent stack goes.
@@ -660,7 +997,237 @@ func blankCommaOk(as *ast.AssignStmt, ix *ast.IndexExpr) bool {
 	return ok && id.Name == "_"
 }
 
-// eval turns a string-valued expression into a path pattern; viper reads met on the way become rows.
+// pkgMeta: package-level constants, variables and types of one package, and which variables are STABLE (never
+// written, never aliased), so that their initialiser is their value wherever they are read.
+type pkgMeta struct {
+	vals     map[string]ast.Expr
+	isConst  map[string]bool
+	unstable map[string]bool
+	types    map[string]ast.Expr
+}
+
+func (w *walker) meta() *pkgMeta {
+	if w.metas == nil {
+		w.metas = map[*pkgInfo]*pkgMeta{}
+	}
+	if m, ok := w.metas[w.p]; ok {
+		return m
+	}
+	m := &pkgMeta{vals: map[string]ast.Expr{}, isConst: map[string]bool{}, unstable: map[string]bool{}, types: map[string]ast.Expr{}}
+	w.metas[w.p] = m
+	decl := map[*ast.Ident]bool{}
+	for _, f := range w.p.files {
+		for _, d := range f.Decls {
+			gd, ok := d.(*ast.GenDecl)
+			if !ok {
+				continue
+			}
+			for _, sp := range gd.Specs {
+				switch sp := sp.(type) {
+				case *ast.TypeSpec:
+					m.types[sp.Name.Name] = sp.Type
+					localTypeNames[sp.Name.Name] = true
+				case *ast.ValueSpec:
+					for i, nm := range sp.Names {
+						decl[nm] = true
+						if len(sp.Names) == len(sp.Values) {
+							m.vals[nm.Name] = sp.Values[i]
+							m.isConst[nm.Name] = gd.Tok == token.CONST
+						} else {
+							m.unstable[nm.Name] = true
+						}
+					}
+				}
+			}
+		}
+	}
+	// stability of the variables: every other occurrence of the name must be a plain read
+	for _, f := range w.p.files {
+		var parents []ast.Node
+		ast.Inspect(f, func(n ast.Node) bool {
+			if n == nil {
+				parents = parents[:len(parents)-1]
+				return true
+			}
+			defer func() { parents = append(parents, n) }()
+			id, ok := n.(*ast.Ident)
+			if !ok || decl[id] || len(parents) == 0 {
+				return true
+			}
+			if _, known := m.vals[id.Name]; !known || m.isConst[id.Name] {
+				return true
+			}
+			par := parents[len(parents)-1]
+			if se, ok := par.(*ast.SelectorExpr); ok && se.Sel == id {
+				return true // a field or method of that name
+			}
+			if kv, ok := par.(*ast.KeyValueExpr); ok && kv.Key == ast.Expr(id) {
+				return true // a field name in a composite literal
+			}
+			// climb through x.f, x[i], (x)
+			var cur ast.Node = id
+			i := len(parents) - 1
+			for ; i >= 0; i-- {
+				switch pn := parents[i].(type) {
+				case *ast.SelectorExpr:
+					if pn.X == cur {
+						cur = pn
+						continue
+					}
+				case *ast.IndexExpr:
+					if pn.X == cur {
+						cur = pn
+						continue
+					}
+				case *ast.ParenExpr:
+					cur = pn
+					continue
+				}
+				break
+			}
+			if i < 0 {
+				m.unstable[id.Name] = true
+				return true
+			}
+			_, literal := m.vals[id.Name].(*ast.BasicLit)
+			switch top := parents[i].(type) {
+			case *ast.AssignStmt:
+				for _, l := range top.Lhs {
+					if l == cur {
+						m.unstable[id.Name] = true
+					}
+				}
+				if cur == ast.Node(id) && !literal {
+					m.unstable[id.Name] = true // y := table: an alias through which it can be modified
+				}
+			case *ast.IncDecStmt:
+				m.unstable[id.Name] = true
+			case *ast.UnaryExpr:
+				if top.Op == token.AND {
+					m.unstable[id.Name] = true
+				}
+			case *ast.RangeStmt:
+				if top.X != cur {
+					m.unstable[id.Name] = true // range key/value variable of that name
+				}
+			case *ast.CallExpr:
+				if top.Fun == cur {
+					if se, ok := cur.(*ast.SelectorExpr); ok {
+						for _, d := range w.p.funcs[se.Sel.Name] {
+							if d.Recv != nil {
+								m.unstable[id.Name] = true // a method of the package on the variable may modify it
+							}
+						}
+					}
+				} else if cur == ast.Node(id) && !literal {
+					if fn, ok := top.Fun.(*ast.Ident); !ok || (fn.Name != "len" && fn.Name != "cap") {
+						m.unstable[id.Name] = true // passed on: may be modified through the alias
+					}
+				}
+			case *ast.Field, *ast.ValueSpec:
+				m.unstable[id.Name] = true // a parameter / local variable of the same name: do not try to tell them apart
+			default:
+				if cur == ast.Node(id) && !literal {
+					m.unstable[id.Name] = true
+				}
+			}
+			return true
+		})
+	}
+	return m
+}
+
+// localTypeOf: the declared type expression behind a type name of the package (nil if unknown).
+func (w *walker) localTypeOf(e ast.Expr) ast.Expr {
+	for {
+		switch x := e.(type) {
+		case *ast.ParenExpr:
+			e = x.X
+			continue
+		case *ast.StarExpr:
+			e = x.X
+			continue
+		case *ast.Ident:
+			return w.meta().types[x.Name]
+		}
+		return nil
+	}
+}
+
+func (w *walker) methodsNamed(name string) []*ast.FuncDecl {
+	var ms []*ast.FuncDecl
+	for _, d := range w.p.funcs[name] {
+		if d.Recv != nil {
+			ms = append(ms, d)
+		}
+	}
+	return ms
+}
+
+// evalComposite: a literal slice/array/map (items, keys) or struct (fields).
+func (w *walker) evalComposite(e *ast.CompositeLit, fr *frame) sym {
+	t := e.Type
+	if t != nil {
+		if _, isName := t.(*ast.Ident); isName {
+			if lt := w.localTypeOf(t); lt != nil {
+				t = lt
+			}
+		}
+	}
+	out := sym{elems: []pelem{{kind: "unknown", s: "composite value used as a string"}}}
+	var st *ast.StructType
+	switch tt := t.(type) {
+	case *ast.ArrayType, *ast.MapType:
+		out.isColl = true
+	case *ast.StructType:
+		st = tt
+		out.fields = map[string]sym{}
+	case nil:
+		out.isColl = true
+		out.fields = map[string]sym{}
+	default:
+		return unknownSym("literal of type " + exprText(e.Type))
+	}
+	// the literal and its key/value pairs are pushed as parents, so that a read inside is attributed as in the
+	// statement walk (feedsOf: "T.Field", and map reads are not mistaken for keys-only uses)
+	saved := fr.parents
+	fr.parents = append(append([]ast.Node{}, fr.parents...), e)
+	defer func() { fr.parents = saved }()
+	for i, el := range e.Elts {
+		if kv, ok := el.(*ast.KeyValueExpr); ok {
+			fr.parents = append(fr.parents, kv)
+			v := w.eval(kv.Value, fr)
+			fr.parents = fr.parents[:len(fr.parents)-1]
+			if out.isColl {
+				out.keys = append(out.keys, w.eval(kv.Key, fr))
+				out.items = append(out.items, v)
+			}
+			if id, ok := kv.Key.(*ast.Ident); ok && out.fields != nil {
+				out.fields[id.Name] = v
+			}
+			continue
+		}
+		v := w.eval(el, fr)
+		if out.isColl {
+			out.items = append(out.items, v)
+		}
+		if st != nil { // positional struct literal
+			k := 0
+			for _, fl := range st.Fields.List {
+				for _, nm := range fl.Names {
+					if k == i {
+						out.fields[nm.Name] = v
+					}
+					k++
+				}
+			}
+		}
+	}
+	return out
+}
+
+// eval turns an expression into a symbolic value: a path pattern (possibly several alternatives), the map returned by
+// a read, a struct / table literal, or a function value; viper reads met on the way become rows.
 func (w *walker) eval(e ast.Expr, fr *frame) sym {
 	switch e := e.(type) {
 	case *ast.BasicLit:
@@ -673,17 +1240,90 @@ func (w *walker) eval(e ast.Expr, fr *frame) sym {
 		return unknownSym("literal " + e.Value)
 	case *ast.ParenExpr:
 		return w.eval(e.X, fr)
-	case *ast.BinaryExpr:
-		if e.Op == token.ADD {
-			a, b := w.eval(e.X, fr), w.eval(e.Y, fr)
-			return sym{elems: append(append([]pelem{}, a.elems...), b.elems...)}
+	case *ast.StarExpr:
+		return w.eval(e.X, fr)
+	case *ast.UnaryExpr:
+		if e.Op == token.AND {
+			return w.eval(e.X, fr)
 		}
 		return unknownSym("operator " + e.Op.String())
+	case *ast.BinaryExpr:
+		if e.Op == token.ADD {
+			return concatSyms(w.eval(e.X, fr), w.eval(e.Y, fr))
+		}
+		return unknownSym("operator " + e.Op.String())
+	case *ast.CompositeLit:
+		return w.evalComposite(e, fr)
 	case *ast.Ident:
 		if v, ok := fr.get(e.Name); ok {
 			return v
 		}
+		m := w.meta()
+		if init, ok := m.vals[e.Name]; ok {
+			if m.unstable[e.Name] {
+				return unknownSym("package variable " + e.Name + " is written or aliased somewhere in the package")
+			}
+			if len(w.stack) < 14 {
+				w.stack = append(w.stack, "pkgvar:"+e.Name)
+				v := w.eval(init, newFrame())
+				w.stack = w.stack[:len(w.stack)-1]
+				return v
+			}
+		}
+		var fs []funcRef
+		for _, d := range w.p.funcs[e.Name] {
+			if d.Recv == nil {
+				fs = append(fs, funcRef{fd: d, p: w.p})
+			}
+		}
+		if len(fs) > 0 {
+			return sym{elems: []pelem{{kind: "unknown", s: "function value used as a string"}}, funcs: fs}
+		}
 		return unknownSym("identifier " + e.Name)
+	case *ast.SelectorExpr:
+		if x, ok := e.X.(*ast.Ident); ok {
+			if _, shadow := fr.get(x.Name); !shadow {
+				if _, isImport := w.p.imports[x.Name]; isImport {
+					return unknownSym("selector " + exprText(e))
+				}
+			}
+		}
+		// method expression (*T).m / T.m
+		if w.localTypeOf(e.X) != nil {
+			if id, ok := e.X.(*ast.Ident); !ok || func() bool { _, isVar := fr.get(id.Name); return !isVar }() {
+				var fs []funcRef
+				for _, d := range w.methodsNamed(e.Sel.Name) {
+					fs = append(fs, funcRef{fd: d, p: w.p, methodExpr: true})
+				}
+				if len(fs) > 0 {
+					return sym{elems: []pelem{{kind: "unknown", s: "function value used as a string"}}, funcs: fs}
+				}
+			}
+		}
+		x := w.eval(e.X, fr)
+		if x.fields != nil {
+			if v, ok := x.fields[e.Sel.Name]; ok {
+				return v
+			}
+		}
+		if ms := w.methodsNamed(e.Sel.Name); len(ms) > 0 { // method value x.m
+			var fs []funcRef
+			for _, d := range ms {
+				rc := x
+				fs = append(fs, funcRef{fd: d, p: w.p, recv: &rc})
+			}
+			return sym{elems: []pelem{{kind: "unknown", s: "function value used as a string"}}, funcs: fs}
+		}
+		return unknownSym("selector " + exprText(e))
+	case *ast.IndexExpr:
+		saved := fr.parents
+		fr.parents = append(append([]ast.Node{}, fr.parents...), e)
+		x := w.eval(e.X, fr)
+		fr.parents = saved
+		if x.isColl {
+			return mergeSyms(x.items, "element of "+exprText(e.X))
+		}
+		return unknownSym("element of " + exprText(e.X))
 	case *ast.CallExpr:
 		if s, ok := e.Fun.(*ast.SelectorExpr); ok && s.Sel.Name == "ByName" && len(e.Args) == 1 {
 			if lit, ok := e.Args[0].(*ast.BasicLit); ok && lit.Kind == token.STRING {
@@ -698,6 +1338,9 @@ func (w *walker) eval(e ast.Expr, fr *frame) sym {
 			r := w.rowByID(id)
 			if r == nil {
 				return unknownSym("result of a viper call that returns nothing")
+			}
+			if r.multi {
+				return unknownSym("result of a read with several alternative keys")
 			}
 			if r.mapCall {
 				return sym{mapRow: id, elems: []pelem{{kind: "unknown", s: "map value used as a string"}}}
@@ -715,10 +1358,17 @@ func (w *walker) eval(e ast.Expr, fr *frame) sym {
 		if t := exprText(e.Fun); (t == "strings.ToLower" || t == "strings.ToUpper") && len(e.Args) == 1 && w.p.imports["strings"] == "strings" {
 			return w.eval(e.Args[0], fr)
 		}
-		// a helper of the package that only returns an expression of its parameters (key builders)
+		// a helper of the package that only returns an expression of its parameters / receiver (key builders, accessors)
 		if _, callees := w.localCallees(e); len(callees) == 1 {
 			if ret := singleReturn(callees[0]); ret != nil && len(w.stack) < 12 {
 				sub := newFrame()
+				if se, ok := e.Fun.(*ast.SelectorExpr); ok && callees[0].Recv != nil {
+					for _, fl := range callees[0].Recv.List {
+						for _, nm := range fl.Names {
+							sub.define(nm.Name, w.eval(se.X, fr))
+						}
+					}
+				}
 				i := 0
 				for _, fl := range callees[0].Type.Params.List {
 					for _, nm := range fl.Names {
@@ -731,7 +1381,7 @@ func (w *walker) eval(e ast.Expr, fr *frame) sym {
 				w.stack = append(w.stack, "eval:"+callees[0].Name.Name)
 				v := w.eval(ret, sub)
 				w.stack = w.stack[:len(w.stack)-1]
-				// reads inside the helper are recorded by the statement walk of the helper, not here
+				// reads inside the helper are recorded by the statement walk of the helper as well
 				return v
 			}
 		}
@@ -821,6 +1471,18 @@ func (w *walker) viperCall(c *ast.CallExpr, fr *frame) int {
 	}
 	id := w.addRow(r)
 	fr.memo[c] = id
+	if len(c.Args) >= 1 && len(key.more) > 0 && r.kind != "unknown" && len(r.pat) > 0 {
+		// the key is drawn from a table: one row per alternative (their results are not told apart afterwards)
+		r.multi = true
+		if r.mapCall {
+			r.valueUsed = true
+		}
+		for _, alt := range key.more {
+			cp := *r
+			cp.pat = alt
+			w.addRow(&cp)
+		}
+	}
 	return id
 }
 
@@ -886,7 +1548,17 @@ func (w *walker) walkFunc(fd *ast.FuncDecl, args []sym) {
 	w.stack = append(w.stack, key)
 	defer func() { w.stack = w.stack[:len(w.stack)-1] }()
 
+	recv := w.recvArg
+	w.recvArg = nil
 	fr := newFrame()
+	fr.poison = loopModified(fd.Body)
+	if fd.Recv != nil && recv != nil {
+		for _, fl := range fd.Recv.List {
+			for _, nm := range fl.Names {
+				fr.define(nm.Name, *recv)
+			}
+		}
+	}
 	i := 0
 	for _, fl := range fd.Type.Params.List {
 		for _, nm := range fl.Names {
@@ -894,6 +1566,77 @@ func (w *walker) walkFunc(fd *ast.FuncDecl, args []sym) {
 				fr.define(nm.Name, args[i])
 			}
 			i++
+		}
+	}
+	// callRefs walks the declarations a function value can denote
+	callRefs := func(refs []funcRef, as []sym) {
+		for _, ref := range refs {
+			a, rc := as, ref.recv
+			if ref.methodExpr {
+				if len(as) > 0 {
+					r0 := as[0]
+					rc, a = &r0, as[1:]
+				} else {
+					rc = nil
+				}
+			}
+			saved := w.p
+			w.p = ref.p
+			w.recvArg = rc
+			w.walkFunc(ref.fd, a)
+			w.recvArg = nil
+			w.p = saved
+		}
+	}
+	// storeInto handles `x.f = v`, `x[i] = v`, `*x = v`: a known struct variable gets the field, anything else that is
+	// tracked becomes unknown
+	storeInto := func(lhs ast.Expr, rhs ast.Expr, par ast.Node) {
+		if se, ok := lhs.(*ast.SelectorExpr); ok {
+			if id, ok := se.X.(*ast.Ident); ok {
+				if cur, ok := fr.get(id.Name); ok && cur.fields != nil && !fr.poison[id.Name] {
+					var v sym
+					if rhs != nil {
+						v = w.evalIn(rhs, fr, par)
+					} else {
+						v = unknownSym("field " + se.Sel.Name + " set from a multi-value expression")
+					}
+					nf := map[string]sym{}
+					for k, x := range cur.fields {
+						nf[k] = x
+					}
+					if old, had := nf[se.Sel.Name]; had && !symEq(old, v) {
+						v = unknownSym("field " + se.Sel.Name + " of " + id.Name + " is set more than once")
+					}
+					nf[se.Sel.Name] = v
+					cur.fields = nf
+					st := fr.env[id.Name]
+					st[len(st)-1].v = cur
+					return
+				}
+			}
+		}
+		root := lhs
+		for {
+			switch x := root.(type) {
+			case *ast.SelectorExpr:
+				root = x.X
+				continue
+			case *ast.IndexExpr:
+				root = x.X
+				continue
+			case *ast.StarExpr:
+				root = x.X
+				continue
+			case *ast.ParenExpr:
+				root = x.X
+				continue
+			}
+			break
+		}
+		if id, ok := root.(*ast.Ident); ok {
+			if _, tracked := fr.get(id.Name); tracked {
+				fr.assign(id.Name, unknownSym("variable "+id.Name+" is modified through a field, an element or a pointer"))
+			}
 		}
 	}
 	bind := func(id *ast.Ident, v sym, define bool) {
@@ -930,26 +1673,43 @@ func (w *walker) walkFunc(fd *ast.FuncDecl, args []sym) {
 		case *ast.AssignStmt:
 			if len(n.Lhs) == len(n.Rhs) {
 				for i, l := range n.Lhs {
-					if id, ok := l.(*ast.Ident); ok && id.Name != "_" {
+					if id, ok := l.(*ast.Ident); ok {
+						if id.Name == "_" {
+							continue
+						}
 						// evaluate with the right parent context: push the rhs path virtually
 						v := w.evalIn(n.Rhs[i], fr, n)
 						if n.Tok != token.DEFINE && n.Tok != token.ASSIGN {
 							v = unknownSym("compound assignment to " + id.Name) // += and friends
 						}
 						bind(id, v, n.Tok == token.DEFINE)
+					} else {
+						storeInto(l, n.Rhs[i], n)
 					}
 				}
 			} else {
-				// x, y := f(): nothing is known about the results
-				for _, l := range n.Lhs {
-					if id, ok := l.(*ast.Ident); ok && id.Name != "_" {
+				// v, ok := table[k]: the first result is an element of the table; x, y := f(): nothing is known
+				_, commaOkIndex := n.Rhs[0].(*ast.IndexExpr)
+				for k, l := range n.Lhs {
+					if id, ok := l.(*ast.Ident); ok {
+						if id.Name == "_" {
+							continue
+						}
+						if k == 0 && commaOkIndex && len(n.Lhs) == 2 && len(n.Rhs) == 1 {
+							bind(id, w.evalIn(n.Rhs[0], fr, n), n.Tok == token.DEFINE)
+							continue
+						}
 						bind(id, unknownSym("one of several results of "+exprText(n.Rhs[0])), n.Tok == token.DEFINE)
+					} else {
+						storeInto(l, nil, n)
 					}
 				}
 			}
 		case *ast.IncDecStmt:
 			if id, ok := n.X.(*ast.Ident); ok {
 				fr.assign(id.Name, unknownSym("modified variable "+id.Name))
+			} else {
+				storeInto(n.X, nil, n)
 			}
 		case *ast.ValueSpec:
 			if len(n.Names) == len(n.Values) {
@@ -957,7 +1717,14 @@ func (w *walker) walkFunc(fd *ast.FuncDecl, args []sym) {
 					bind(id, w.evalIn(n.Values[i], fr, n), true)
 				}
 			} else {
+				_, isStruct := w.localTypeOf(n.Type).(*ast.StructType)
 				for _, id := range n.Names {
+					if len(n.Values) == 0 && n.Type != nil && isStruct {
+						if _, ptr := n.Type.(*ast.StarExpr); !ptr {
+							bind(id, sym{elems: []pelem{{kind: "unknown", s: "struct value used as a string"}}, fields: map[string]sym{}}, true)
+							continue
+						}
+					}
 					bind(id, unknownSym("declared variable "+id.Name), true)
 				}
 			}
@@ -978,6 +1745,18 @@ func (w *walker) walkFunc(fd *ast.FuncDecl, args []sym) {
 					if id, ok := n.Value.(*ast.Ident); ok {
 						fr.define(id.Name, unknownSym("range value over "+exprText(n.X)))
 					}
+				}
+			} else if v.isColl {
+				// a literal table of the package: the loop variable is any of its keys / elements
+				if id, ok := n.Key.(*ast.Ident); ok && id.Name != "_" {
+					if len(v.keys) > 0 {
+						fr.define(id.Name, mergeSyms(v.keys, "range key over "+exprText(n.X)))
+					} else {
+						fr.define(id.Name, unknownSym("index into "+exprText(n.X)))
+					}
+				}
+				if id, ok := n.Value.(*ast.Ident); ok && id.Name != "_" {
+					fr.define(id.Name, mergeSyms(v.items, "range value over "+exprText(n.X)))
 				}
 			} else {
 				if id, ok := n.Key.(*ast.Ident); ok && id.Name != "_" {
@@ -1014,14 +1793,45 @@ func (w *walker) walkFunc(fd *ast.FuncDecl, args []sym) {
 			if w.foreignCall(n, fr) {
 				break
 			}
+			if isConversion(n) {
+				break
+			}
 			name, callees := w.localCallees(n)
+			// a local variable of the same name hides the package's function
+			if id, ok := n.Fun.(*ast.Ident); ok {
+				if _, local := fr.get(id.Name); local {
+					callees = nil
+				}
+			}
 			if len(callees) > 0 {
 				var as []sym
 				for _, a := range n.Args {
 					as = append(as, w.evalIn(a, fr, n))
 				}
+				var rc *sym
+				if se, ok := n.Fun.(*ast.SelectorExpr); ok {
+					r0 := w.evalIn(se.X, fr, n)
+					rc = &r0
+				}
 				for _, cd := range callees {
+					if cd.Recv != nil {
+						w.recvArg = rc
+					}
 					w.walkFunc(cd, as)
+					w.recvArg = nil
+				}
+			} else {
+				// a call through a function value (a variable, an element of a handler table, a struct field): walk every
+				// declaration it can denote.  (What cannot be resolved here is still walked by the package pass under "*".)
+				switch n.Fun.(type) {
+				case *ast.Ident, *ast.IndexExpr, *ast.SelectorExpr, *ast.ParenExpr:
+					if fv := w.evalIn(n.Fun, fr, n); len(fv.funcs) > 0 {
+						var as []sym
+						for _, a := range n.Args {
+							as = append(as, w.evalIn(a, fr, n))
+						}
+						callRefs(fv.funcs, as)
+					}
 				}
 			}
 			_ = name
@@ -1036,6 +1846,65 @@ func (w *walker) walkFunc(fd *ast.FuncDecl, args []sym) {
 			}
 		}
 	}
+}
+
+// loopModified: the variables that are assigned (not defined), incremented or stored into inside a for / range statement
+// of the body.  The walk visits every statement once, so a use that textually precedes such a modification would be
+// evaluated with the value of the first iteration only; these variables are unknown from the start instead.
+func loopModified(body *ast.BlockStmt) map[string]bool {
+	out := map[string]bool{}
+	rootName := func(e ast.Expr) string {
+		for {
+			switch x := e.(type) {
+			case *ast.Ident:
+				return x.Name
+			case *ast.SelectorExpr:
+				e = x.X
+			case *ast.IndexExpr:
+				e = x.X
+			case *ast.StarExpr:
+				e = x.X
+			case *ast.ParenExpr:
+				e = x.X
+			default:
+				return ""
+			}
+		}
+	}
+	var inLoop func(n ast.Node)
+	inLoop = func(n ast.Node) {
+		ast.Inspect(n, func(m ast.Node) bool {
+			switch s := m.(type) {
+			case *ast.AssignStmt:
+				for _, l := range s.Lhs {
+					if _, plain := l.(*ast.Ident); plain && s.Tok == token.DEFINE {
+						continue
+					}
+					if nm := rootName(l); nm != "" && nm != "_" {
+						out[nm] = true
+					}
+				}
+			case *ast.IncDecStmt:
+				if nm := rootName(s.X); nm != "" {
+					out[nm] = true
+				}
+			}
+			return true
+		})
+	}
+	ast.Inspect(body, func(n ast.Node) bool {
+		switch s := n.(type) {
+		case *ast.ForStmt:
+			inLoop(s.Body)
+			if s.Post != nil {
+				inLoop(s.Post)
+			}
+		case *ast.RangeStmt:
+			inLoop(s.Body)
+		}
+		return true
+	})
+	return out
 }
 
 // modulePath reads the module line of ./go.mod (cwd = repository root).
@@ -1387,6 +2256,16 @@ func classifyFeed(e ast.Expr, p *pkgInfo) (string, string) {
 			if strings.HasPrefix(t, "hc.App.LogLevel.") {
 				return "app", t
 			}
+			// a method declared in this package (an accessor such as settings.str("k")): walked like any other function
+			if id, ok := f.X.(*ast.Ident); ok {
+				if _, isImport := p.imports[id.Name]; !isImport {
+					for _, d := range p.funcs[f.Sel.Name] {
+						if d.Recv != nil {
+							return "call", t
+						}
+					}
+				}
+			}
 			// a function of the standard library or of a third-party package (not viper, not this module): it has no
 			// access to Burrow's configuration; its arguments are walked like any other expression
 			if id, ok := f.X.(*ast.Ident); ok {
@@ -1655,6 +2534,13 @@ func main() {
 	p := load()
 	switch mode {
 	case "routes":
+		// routes [observed METHOD PATTERN HANDLER ...]
+		if len(os.Args) > 2 && os.Args[2] == "observed" {
+			for i := 3; i+2 < len(os.Args); i += 3 {
+				observedRoutes = append(observedRoutes, route{method: os.Args[i], pattern: os.Args[i+1], handler: os.Args[i+2],
+					reg: "observed", pos: "router.Lookup"})
+			}
+		}
 		emitRoutes(p)
 	case "reads":
 		emitReads(p)
